@@ -46,8 +46,10 @@ class Server(object):
         self.log = os.path.join(self.scratch, "log.txt")
         self.conf_lines = list(conf_lines)
         self.write_conf()
-        args = [PY, os.path.join(RFILES, "launcher.py"), "-k", kind, "-w", str(workers), "-b", self.bind, "-t", str(timeout),
+        args = [PY, os.path.join(RFILES, "launcher.py"), "-k", kind, "-b", self.bind, "-t", str(timeout),
                 "--graceful-timeout", str(graceful), "-c", self.conf, "--log-level", "debug"]
+        if workers is not None:
+            args += ["-w", str(workers)]
         if self.pidfile:
             args += ["-p", self.pidfile]
         if threads:
@@ -89,7 +91,10 @@ class Server(object):
         except OSError as e:
             return None, b"", "connect:%s" % errno.errorcode.get(e.errno, str(e))
         try:
-            s.sendall(("%s %s HTTP/%s\r\nHost: x\r\n%s%s\r\n" % (method, path, version, "Connection: close\r\n" if close else "", headers)).encode())
+            try:
+                s.sendall(("%s %s HTTP/%s\r\nHost: x\r\n%s%s\r\n" % (method, path, version, "Connection: close\r\n" if close else "", headers)).encode())
+            except OSError as e:
+                return None, b"", "send:%s" % errno.errorcode.get(e.errno, str(e))
             data, err = read_all(s, timeout)
         finally:
             s.close()
